@@ -229,7 +229,8 @@ pub fn arity_ok(n: &Tree) -> bool {
 /// Tree equality with NaN == NaN (D13): the derived PartialEq, or identical Debug text (a tree
 /// holding the constant `nan` is not equal to itself under PartialEq).
 pub fn tree_same(a: &Tree, b: &Tree) -> bool {
-    a == b || format!("{:?}", a) == format!("{:?}", b)
+    // by Debug text, not by the library's own PartialEq (which is part of what is being checked)
+    format!("{:?}", a) == format!("{:?}", b)
 }
 
 pub fn tree_depth(n: &Tree) -> usize {
@@ -258,7 +259,7 @@ fn rv_err_to_real(e: RE) -> Err {
     match e {
         RE::Custom(m) => EvalexprError::CustomMessage(m),
         RE::FnNotFound(n) => EvalexprError::FunctionIdentifierNotFound(n),
-        RE::Expected(Exp::Int, v) => EvalexprError::expected_int(from_rv(&v)),
+        RE::Expected(Exp::Int, v) => EvalexprError::ExpectedInt { actual: from_rv(&v) },
         other => EvalexprError::CustomMessage(format!("harness-uf-error:{:?}", other)),
     }
 }
